@@ -1,4 +1,5 @@
 import SpecVerif.Proofs.Lemmas.Shift
+import SpecVerif.Proofs.Lemmas.AdaptLoop
 import SpecVerif.Proofs.C01
 import SpecVerif.Proofs.C08
 import SpecVerif.Model.Arma
@@ -18,9 +19,16 @@ import SpecVerif.Model.Sides
   `twist μ A` (`A_j ↦ μ^{j+1} A_j`); `trconj x` is the conjugated time reversal `y_n = conj x_{N-1-n}`.
   "Rotated by `m` bins" is `numpy.roll(p, m)`: `roll(p, m)[k] = p[(k - m) mod NFFT]`, the model's
   `cshift p m`.
+
+  Multitaper: `multitaper_shift` covers the data-independent weightings (`unity`, `eigen`); the adaptive
+  weighting is covered for the WHOLE iteration of `pmtm(method='adapt')` by `multitaper_shift_adapt` /
+  `multitaper_shift_adapt_mod` (section 4b): the stopping test `Σ_f|S[f]-S1[f]|/NFFT > tol` is a sum over
+  all bins and the data power is unchanged by a unimodular modulation, so the loops on the data and on
+  the modulated data make the same number of passes, and the weights table and the adaptive mean are
+  rotated by `m` bins (helpers: `Proofs/Lemmas/AdaptLoop.lean`, namespace `SpecVerif.AdaptL`).
 -/
 namespace SpecVerif.C04
-open Finset SpecVerif SpecVerif.ArmaL SpecVerif.ShiftL
+open Finset SpecVerif SpecVerif.ArmaL SpecVerif.ShiftL SpecVerif.MtmL SpecVerif.AdaptL
 
 variable {K : Type} [Field K] [StarRing K]
 
@@ -260,6 +268,72 @@ theorem multitaper_shift {ω : K} {nfft : ℕ} (hω : ω ^ nfft = 1) (method : M
   refine eq_cshift_of_entries (by simp [mtMean]) (by simp [mtMean]) hm (fun k hk => ?_)
   exact mtMean_rot method hmeth _ _ W nfft nwin hk (Nat.mod_lt _ hn)
     (fun t _ => mtSkAbs2_modulate hn hω x tapers t hk (by omega))
+
+/-! ### 4b. the adaptive multitaper weighting: the whole iteration -/
+
+/-- **adaptive multitaper shift covariance, the whole loop** (the `.adapt` case excluded from
+`multitaper_shift`): if the data `x'` has the length and the energy `Σ_j|x'_j|²` of `x` (what a unimodular
+modulation does) and every row of the table `SkA'` of squared eigenspectra is the row of `SkA` rotated by
+`m` bins (`SkA'[t][k] = SkA[t][(k - m) mod NFFT]`), then `pmtm(method='adapt')` — start estimate, data
+power, tolerance, and all (at most 100) passes of the `while` loop with its stopping test — returns the
+weights table of `x` with its `NFFT` rows rotated by `m` (`numpy.roll(W, m, axis=0)`), and the adaptive
+multitaper mean is the mean of `x` rotated by `m` bins (`numpy.roll(·, m)`). -/
+theorem multitaper_shift_adapt [ReOrd K] {nfft m : ℕ} (hm : m < nfft) (x' x lams : List K)
+    (SkA' SkA : List (List K)) (tolc : K) (hlen : x'.length = x.length)
+    (hpow : ∑ j ∈ range x'.length, nth x' j * star (nth x' j)
+      = ∑ j ∈ range x.length, nth x j * star (nth x j))
+    (hSk : ∀ t k, k < nfft → nth (SkA'.getD t []) k = nth (SkA.getD t []) ((k + nfft - m) % nfft)) :
+    pmtmWeights .adapt x' lams SkA' nfft tolc
+        = vec nfft (fun k =>
+            (pmtmWeights .adapt x lams SkA nfft tolc).getD ((k + nfft - m) % nfft) []) ∧
+    mtMean .adapt SkA' (pmtmWeights .adapt x' lams SkA' nfft tolc) nfft lams.length
+      = cshift (mtMean .adapt SkA (pmtmWeights .adapt x lams SkA nfft tolc) nfft lams.length) m := by
+  have hsig : adaptSig2 x' = adaptSig2 x := by
+    unfold adaptSig2
+    rw [hpow, hlen]
+  refine ⟨pmtmWeights_adapt_rot hm.le x' x lams SkA' SkA tolc hsig hSk, ?_⟩
+  exact mtMean_adapt_rot hm SkA' SkA _ _ lams.length hSk
+    (fun k hk => pmtmWeights_adapt_rot_row hm.le x' x lams SkA' SkA tolc hsig hSk hk)
+
+/-- **adaptive multitaper shift covariance, end to end**: for the data modulated by `e^{2πi m n/NFFT}`
+(`modulate (ω⁻¹ ^ m) x`), with the squared eigenspectra computed by the model from the data and the tapers
+(`mtSkAbs2`, as in `multitaper_shift`), the adaptive weights returned by `pmtm(method='adapt')` are those
+of the data with the rows rotated by `m`, and the adaptive multitaper mean is rotated by `m` bins. -/
+theorem multitaper_shift_adapt_mod [ReOrd K] {ω : K} {nfft : ℕ} (hω : ω ^ nfft = 1)
+    (hstar : star ω = ω⁻¹) (x lams : List K) (tapers : List (List K)) (tolc : K) {m : ℕ}
+    (hm : m < nfft) :
+    pmtmWeights .adapt (modulate (ω⁻¹ ^ m) x) lams
+        (mtSkAbs2 (twiddles ω nfft) (modulate (ω⁻¹ ^ m) x) tapers nfft) nfft tolc
+      = vec nfft (fun k =>
+          (pmtmWeights .adapt x lams (mtSkAbs2 (twiddles ω nfft) x tapers nfft) nfft tolc).getD
+            ((k + nfft - m) % nfft) []) ∧
+    mtMean .adapt (mtSkAbs2 (twiddles ω nfft) (modulate (ω⁻¹ ^ m) x) tapers nfft)
+        (pmtmWeights .adapt (modulate (ω⁻¹ ^ m) x) lams
+          (mtSkAbs2 (twiddles ω nfft) (modulate (ω⁻¹ ^ m) x) tapers nfft) nfft tolc) nfft lams.length
+      = cshift (mtMean .adapt (mtSkAbs2 (twiddles ω nfft) x tapers nfft)
+          (pmtmWeights .adapt x lams (mtSkAbs2 (twiddles ω nfft) x tapers nfft) nfft tolc)
+          nfft lams.length) m := by
+  have hn : 0 < nfft := by omega
+  have hμ := unimod_inv_pow (ne_zero_of_pow_eq_one hn hω) hstar m
+  exact multitaper_shift_adapt hm _ x lams _ _ tolc (modulate_length _ x) (energy_modulate hμ x)
+    (fun t k hk => mtSkAbs2_modulate hn hω x tapers t hk hm.le)
+
+/-- non-vacuity (`K = ℚ`, trivial involution, tests `≤`, `>` on `ℚ`; `ω = -1`, `NFFT = 2`, `m = 1`): the
+hypotheses of `multitaper_shift_adapt_mod` hold, and for the data `[3, 2]` (modulated: `[3, -2]`), tapers
+`[1, 2]`, `[2, 1]`, eigenvalues `[1/2, 1/4]`, `tolc = 4` the loop makes exactly one pass and the two rows of
+the (non-trivial, frequency-dependent) weights table are swapped. -/
+example :
+    letI : ReOrd ℚ := ⟨fun a => a ≤ 0, fun a b => a > b⟩
+    ((-1 : ℚ) ^ 2 = 1 ∧ star (-1 : ℚ) = (-1 : ℚ)⁻¹ ∧ 1 < 2) ∧
+    modulate ((-1 : ℚ)⁻¹ ^ 1) [3, 2] = [3, -2] ∧
+    pmtmWeights .adapt ([3, 2] : List ℚ) [1 / 2, 1 / 4]
+        (mtSkAbs2 (twiddles (-1 : ℚ) 2) [3, 2] [[1, 2], [2, 1]] 2) 2 4
+      = [[12769 / 7938, 12769 / 5776], [289 / 450, 289 / 784]] ∧
+    pmtmWeights .adapt ([3, -2] : List ℚ) [1 / 2, 1 / 4]
+        (mtSkAbs2 (twiddles (-1 : ℚ) 2) [3, -2] [[1, 2], [2, 1]] 2) 2 4
+      = [[289 / 450, 289 / 784], [12769 / 7938, 12769 / 5776]] := by
+  refine ⟨⟨by norm_num, by norm_num, by norm_num⟩, by decide +kernel, by decide +kernel,
+    by decide +kernel⟩
 
 /-! ### 5. conjugated coefficients mirror the model spectrum; real models are symmetric -/
 
